@@ -13,6 +13,7 @@ import (
 
 func c13PK(c *core.Ctx) {
 	const rule = "C13-pk"
+	c13NullComparisons(c, rule)
 	files, probs := c.MigrationFiles("aggsender/db/migrations")
 	s := c.LoadSchema(files, "")
 	for _, p := range append(probs, s.Problems...) {
@@ -99,9 +100,79 @@ func c13StatusUpdate(c *core.Ctx, rule string) {
 	}
 }
 
+// c13StoreRetry: a certificate the Agglayer accepted is recorded: the retry loop around SaveLastSentCertificate gives up
+// only on the edge `retries == maxRetries` — with the documented maxRetries = 0 ("retry indefinitely") that never holds;
+// an ordering comparison would give up after the first failure.
+func c13StoreRetry(c *core.Ctx, rule string) {
+	fn := c.MustFn(rule, "aggsender", "AggSender", "saveCertificateToStorage")
+	if fn == nil || len(fn.Params) < 4 {
+		return
+	}
+	eq := core.RelEdges(fn, func(ssa.Value) bool { return true }, core.IsValue(fn.Params[3]), token.EQL)
+	eq = append(eq, core.RelEdges(fn, core.IsValue(fn.Params[3]), func(ssa.Value) bool { return true }, token.EQL)...)
+	ok := len(eq) > 0
+	n := 0
+	for _, rc := range core.ReturnCases(fn) {
+		if len(rc.Values) == 1 && !isNilConst(rc.Values[0]) {
+			n++
+			ok = ok && rc.ReachableOnlyVia(fn, eq)
+		}
+	}
+	c.Decide(ok && n > 0, rule, "aggsender.(*AggSender).saveCertificateToStorage#gives-up-only-at-max", fn.Pos(), "the save is abandoned only when the attempt counter equals maxRetries (0 = never)")
+}
+
+// c13NullComparisons: `x = NULL` / `x <> NULL` in a migration is never true in SQL: a data fix written that way is a no-op
+// and rows written by older versions stay unreadable (NULL into a non-pointer Go field).
+func c13NullComparisons(c *core.Ctx, rule string) {
+	files, _ := c.MigrationFiles("aggsender/db/migrations")
+	n := 0
+	for _, f := range files {
+		b, err := c.ReadFile(f)
+		if err != nil {
+			continue
+		}
+		up := string(b)
+		if i := strings.Index(up, "-- +migrate Up"); i >= 0 {
+			up = up[i:]
+		}
+		if i := strings.Index(up, "-- +migrate Down"); i >= 0 {
+			up = up[:i]
+		}
+		var lines []string
+		for _, l := range strings.Split(up, "\n") {
+			if i := strings.Index(l, "--"); i >= 0 {
+				l = l[:i]
+			}
+			lines = append(lines, l)
+		}
+		tk := sqlTokensUpper(strings.Join(lines, "\n"))
+		bad := false
+		for i := 0; i+1 < len(tk); i++ {
+			if tk[i+1] == "NULL" && (tk[i] == "=" || tk[i] == "!=" || tk[i] == ">" && i > 0 && tk[i-1] == "<") {
+				// `SET col = NULL` is an assignment: only comparisons (after WHERE / AND / OR … up to the next clause) count
+				for j := i; j >= 0; j-- {
+					if tk[j] == "WHERE" || tk[j] == "AND" || tk[j] == "OR" || tk[j] == "ON" || tk[j] == "WHEN" {
+						bad = true
+						break
+					}
+					if tk[j] == "SET" || tk[j] == ";" || tk[j] == "," {
+						break
+					}
+				}
+			}
+		}
+		n++
+		c.Decide(!bad, rule, "aggsender/db/migrations:"+f[strings.LastIndex(f, "/")+1:]+"#null-comparison", token.NoPos, "no `= NULL` / `<> NULL` comparison (always unknown in SQL): NULL is tested with IS [NOT] NULL")
+	}
+	if n == 0 {
+		c.Undecide(rule, "aggsender/db/migrations#files", token.NoPos, "no migration files found")
+	}
+}
+
 func c13Replace(c *core.Ctx) {
 	const rule = "C13-replace"
 	c13StatusUpdate(c, rule)
+	c13StoreRetry(c, rule)
 	names := []string{"SaveLastSentCertificate", "UpdateCertificateStatus", "DeleteCertificate", "SaveNonAcceptedCertificate", "GetLastSentCertificateHeaderWithProofIfInError"}
 	for _, n := range names {
 		fn := c.MustFn(rule, "aggsender/db", "AggSenderSQLStorage", n)
@@ -785,13 +856,14 @@ func init() {
 	register(&Property{
 		ID:          "C13",
 		Level:       "other",
-		Explanation: "Decides the structural necessary conditions of crash-safe certificate bookkeeping on every path: C13-pk — certificate_info PRIMARY KEY(height), history PRIMARY KEY(height, retry_count), identical column lists (schema computed from the embedded migrations); C13-replace — every storage function that opens a transaction pairs it, writes only through it and never drops a write error; SaveLastSentCertificate looks the existing record up on the tx by the new height, moves/deletes exactly that record before the insert, aborts on lookup errors; statements of move/delete parsed and bound; C13-first — the send loop starts only after CheckInitialStatus returned, which happens only after a successful reconciliation or cancellation; a contradiction reported by process() executes nothing; C13-recover — the record rebuilt from an Agglayer header takes Height/ID/LERs/Status from the header, FromBlock from the metadata and ToBlock = FromBlock+Offset (V1/V2) or the V0 ToBlock, and is saved through SaveLastSentCertificate; C13-decide — every deciding return of initialStatus.process is matched with its dominating branch facts against the case table (update only for equal ids at equal-or-not-next height; insert only when nothing is local or the Agglayer is exactly one ahead (constant +1); adopt a pending certificate only at height 0; nothing only when both sides are empty or the lone pending is in error at a wrong height) and the three contradictions always end in an error; action dispatch checked. The end-to-end 'submit, crash anywhere, restart, next certificate is right' is not decided. Added after the sub-agent rounds: C13-last (every 'last certificate' reader selects the greatest height; lookups by height are bound to their argument) and C13-read (a failed read is answered as 'no certificate' / not found only for sql.ErrNoRows; updateCertificateStatus reports success only when the statuses were equal or the Agglayer's status was written to the record and stored). Added after round 7: C13-inputs, C13-next (shared with C02-next), the UPDATE of UpdateCertificateStatus sets exactly (status, updated_at) of the row certificate_id unconditionally, (nil, nil) of updateLocalStorageWithAggLayerCert only when there is nothing to rebuild from.",
+		Explanation: "Decides the structural necessary conditions of crash-safe certificate bookkeeping on every path: C13-pk — certificate_info PRIMARY KEY(height), history PRIMARY KEY(height, retry_count), identical column lists (schema computed from the embedded migrations); C13-replace — every storage function that opens a transaction pairs it, writes only through it and never drops a write error; SaveLastSentCertificate looks the existing record up on the tx by the new height, moves/deletes exactly that record before the insert, aborts on lookup errors; statements of move/delete parsed and bound; C13-first — the send loop starts only after CheckInitialStatus returned, which happens only after a successful reconciliation or cancellation; a contradiction reported by process() executes nothing; C13-recover — the record rebuilt from an Agglayer header takes Height/ID/LERs/Status from the header, FromBlock from the metadata and ToBlock = FromBlock+Offset (V1/V2) or the V0 ToBlock, and is saved through SaveLastSentCertificate; C13-decide — every deciding return of initialStatus.process is matched with its dominating branch facts against the case table (update only for equal ids at equal-or-not-next height; insert only when nothing is local or the Agglayer is exactly one ahead (constant +1); adopt a pending certificate only at height 0; nothing only when both sides are empty or the lone pending is in error at a wrong height) and the three contradictions always end in an error; action dispatch checked. The end-to-end 'submit, crash anywhere, restart, next certificate is right' is not decided. Added after the sub-agent rounds: C13-last (every 'last certificate' reader selects the greatest height; lookups by height are bound to their argument) and C13-read (a failed read is answered as 'no certificate' / not found only for sql.ErrNoRows; updateCertificateStatus reports success only when the statuses were equal or the Agglayer's status was written to the record and stored). Added after round 7: C13-inputs, C13-next (shared with C02-next), the UPDATE of UpdateCertificateStatus sets exactly (status, updated_at) of the row certificate_id unconditionally, (nil, nil) of updateLocalStorageWithAggLayerCert only when there is nothing to rebuild from. Added after round 8: C13-cut (shared with C17-filter: a cut range keeps the retry count), the give-up edge of saveCertificateToStorage (only `retries == maxRetries`), no `= NULL` comparison in the aggsender migrations.",
 		Rules: []Rule{
 			{ID: "C13-last", Floor: 6, Run: c13Last, Text: "SQL: 'the last sent certificate' is the row with the greatest height"},
 			{ID: "C13-read", Floor: 2, Run: c13ReadFaults, Text: "[DOM] read faults are not 'no certificate'; a status difference is always applied and stored"},
 			{ID: "C13-next", Floor: 6, Run: shared("C13-next", c02Next), Text: "(shared with C02-next) the next certificate after a recovered InError one refuses when the settled predecessor is unknown"},
-			{ID: "C13-pk", Floor: 3, Run: c13PK, Text: "[SCHEMA] primary keys of certificate_info / history; same columns"},
-			{ID: "C13-replace", Floor: 20, Run: c13Replace, Text: "[TX] pairing, write-through, error discipline; replace-at-height inside one transaction"},
+			{ID: "C13-cut", Floor: 13, Run: shared("C13-cut", c17Filter), Text: "(shared with C17-filter) a range cut copies every other build parameter — the retry count is part of the history key the next replacement is stored under"},
+			{ID: "C13-pk", Floor: 7, Run: c13PK, Text: "[SCHEMA] primary keys of certificate_info / history; same columns; no `= NULL` comparison in a migration (the data fix of 0004 must match rows)"},
+			{ID: "C13-replace", Floor: 20, Run: c13Replace, Text: "[TX] pairing, write-through, error discipline; replace-at-height inside one transaction; the save after an accepted send is abandoned only on `retries == maxRetries`"},
 			{ID: "C13-first", Floor: 4, Run: c13First, Text: "[DOM] reconcile before the first send; contradictions abort"},
 			{ID: "C13-recover", Floor: 8, Run: c13Recover, Text: "[FIELDMAP] record rebuilt from the Agglayer header"},
 			{ID: "C13-inputs", Floor: 3, Run: c13Inputs, Text: "[DOM]+[PROV] recovery decides on the results of all three lookups; an error is never read as absent"},
